@@ -10,6 +10,7 @@ open Util
 
 let fix = ref true
 let fix11 = ref true
+let stale = ref false
 let fuel = ref 20000
 let cap = ref 3000
 let budget = ref 2.5
@@ -94,6 +95,7 @@ let label_name (l : label) : string =
   | LBootLaunch ORun -> "BootLaunch.run" | LBootLaunch _ -> "BootLaunch.reload"
   | LStopBegin ORun -> "StopBegin.run" | LStopBegin _ -> "StopBegin.reload"
   | LStopJoin ORun -> "StopJoin.run" | LStopJoin _ -> "StopJoin.reload"
+  | LStopCancel ORun -> "StopCancel.run" | LStopCancel _ -> "StopCancel.reload"
   | LCb (ORun, CbSome _) -> "Cb.init.some" | LCb (ORun, _) -> "Cb.init.fail"
   | LCb (_, CbSome _) -> "Cb.reload.some" | LCb (_, _) -> "Cb.reload.fail"
   | LKRun _ -> "KRun" | LKExit (_, _, None) -> "KExit.nil"
@@ -165,7 +167,7 @@ let nparks = ref 0 and nblocked = ref 0 and nevents = ref 0 and nwit = ref 0
 
 let finish (c : case) =
   incr ncases;
-  let p = { pool = c.pool; fix_c09 = !fix; fix_c11 = !fix11 } in
+  let p = { pool = c.pool; fix_c09 = !fix; fix_c11 = !fix11; fix_stale = !stale } in
   let evl = List.rev c.evs in
   let evs = List.map fst evl in
   let n = List.length evs in
@@ -215,7 +217,7 @@ let pool4 = List.map (fun i -> { c_name = n_of_int i; c_stop = NonBlocking; c_ex
 
 let do_membership o nw v =
   incr nmem;
-  let p = { pool = pool4; fix_c09 = false; fix_c11 = !fix11 } in
+  let p = { pool = pool4; fix_c09 = false; fix_c11 = !fix11; fix_stale = false } in
   let cf l = List.map (fun x -> (x, N0)) (names_of l) in
   let m = membership_changed p (cf o) (cf nw) in
   if m then incr nmem_changed;
@@ -259,6 +261,7 @@ let () =
       match String.split_on_char '=' a with
       | ["fix"; v] -> fix := (v = "1")
       | ["fix11"; v] -> fix11 := (v = "1")
+      | ["stale"; v] -> stale := (v = "1")
       | ["fuel"; v] -> fuel := int_of_string v
       | ["cap"; v] -> cap := int_of_string v
       | ["budget"; v] -> budget := float_of_string v
